@@ -598,6 +598,14 @@ enum_ops(mc_op *out, int max)
         if (v->nm < MAXM - 2) {
             ADD(O_ADD, g, 100, 1);
             ADD(O_ADD, g, 100, 2);
+            /* a member of another tag under the reference number of a Vdata / Vgroup that can be inserted as well */
+            if (M.dexists[0] && count_member(v, 1000, (uint16)M.dref[0]) == 0)
+                ADD(O_ADD, g, 1000, M.dref[0]);
+            for (int o = 0; o < NG; o++)
+                if (o != g && M.g[o].exists && count_member(v, 1000, (uint16)M.g[o].ref) == 0) {
+                    ADD(O_ADD, g, 1000, M.g[o].ref);
+                    break;
+                }
             if (M.dexists[0])
                 ADD(O_INSERT_VS, g, 0, 0);
             if (thorough && M.dexists[1])
